@@ -466,7 +466,9 @@ func chanOpsOn(P *Program, match func(chDesc string) bool) []chanOp {
 
 func cacheProtocolRule(P *Program, R *Report) {
 	rule := "C07.d"
-	ops := chanOpsOn(P, func(d string) bool { return strings.HasSuffix(d, ".nonrevCache") })
+	ops := chanOpsOn(P, func(d string) bool {
+		return strings.HasSuffix(d, ".nonrevCache") || strings.HasPrefix(d, "call:gabi.(*Credential).nonrevCacheChan(")
+	})
 	per := map[string]map[string]int{}
 	for _, o := range ops {
 		k := FuncKey(o.fn)
@@ -478,8 +480,12 @@ func cacheProtocolRule(P *Program, R *Report) {
 	}
 	const consume, prepare = "gabi.(*Credential).nonrevConsumeBuilder", "gabi.(*Credential).NonrevPrepareCache"
 	var others []string
-	for k := range per {
+	for k, m := range per {
 		if k != consume && k != prepare {
+			// creating the channel elsewhere is fine (a synchronised lazy initialiser); using it is not
+			if m["send"] == 0 && m["recv"] == 0 && m["close"] == 0 {
+				continue
+			}
 			others = append(others, k)
 		}
 	}
